@@ -22,10 +22,23 @@ Monitors (the property itself, evaluated by python on what the implementation di
   queries     GetShards / GetNodeHostCollection / GetShardStates / GetShardConfigChangeIndexList agree with the
               scheduler context of the same state (shard definitions, reports + tick, membership, versions)
   restart     after RESTART (NodeHost.Close) / KILL (SIGKILL) + log replay every query answers as before
+  failed      calls cut short by an injected fault (wrapper op ("X", fault, second server?, call); fault = ("t", ms): allowance of
+              the proposal / lookup inside the call, 1 = refused before it is submitted, 2.. = may time out in flight;
+              ("c", 0): client context already cancelled; ("d", microseconds): client deadline expires while the call runs):
+              a call that is ANSWERED is judged like any other call (an answered report was applied, its reply is the mailbox,
+              it shows in the collection ...); a call answered with an error either left nothing behind or was applied in full -
+              ONE of the two, consistently for every later answer (all resolutions are tried; a violation is reported when none
+              explains the answers).  getBootstrapped (GB) and a second server object on the same NodeHost ("@2") make the DB
+              state observable independently of anything the first front-end may remember.
+  strings     application / region names (and a report's region / RPC address) also range over a table of literal strings
+              (blank, tab, newline, NBSP and other Unicode white space, NUL, zero-width space, BOM, padded / case variants of
+              ordinary names, 300 and 5000 characters), member lists over long lists and ids up to 2^64-1: refused with an
+              error and DB untouched, or accepted and applied (shows in GetShards / the scheduler context exactly as sent);
+              the replica never dies.
 
 Value bijection (Service.v): "true" = 1, decimal text of n = n+2, marshalled pb.Regions = enc_regions.
 """
-import json, os, re, time
+import binascii, copy, itertools, json, os, re, time
 from vlib import *
 import dbengine as E
 import dbgen
@@ -35,6 +48,58 @@ TTL = [60]           # nodeHostTTL, read from the code by the executor
 MUT = ("SC", "SCNIL", "SR", "SRNIL", "SB", "SD", "SDR", "RP", "T", "Q")
 CONFIG = ("SC", "SCNIL", "SR", "SRNIL", "SB", "SD", "SDR")
 CODE = {0: 0, 4: 1, 5: 2}
+
+# ---------------------------------------------------------------------------------------------- literal strings
+# token -> literal string, in every string position of the service executor (STR lines).  Tokens stay small: a region name n
+# costs a factor 2^n in the model's injective code of a regions specification.  (Not in the table: strings that are not valid
+# UTF-8 - proto.Marshal refuses them inside the service goroutine, and gRPC refuses them before the service is reached.)
+STRTAB = {
+    41: " ", 42: "  ", 43: "\t", 44: "\n", 45: "\r\n", 46: "\u00a0", 47: "\u2003", 48: "\u3000", 49: "\u0085", 50: "\u2028",
+    51: "\x0b\x0c", 52: "\x00", 53: "\u200b", 54: "\ufeff", 55: " app1 ", 56: "app1 ", 57: "APP1", 58: "g1\t", 59: "x" * 300,
+    60: "y" * 5000, 61: "a\x00b", 62: "\u202f\u205f\u1680",
+}
+STRREV = {v: k for k, v in STRTAB.items()}
+BLANKS = [41, 42, 43, 44, 45, 46, 47, 48, 49, 50, 51, 62]          # names made of Unicode white space only
+ODD = sorted(STRTAB)
+
+
+def str_lines():
+    return ["STR %d %s" % (k, binascii.hexlify(v.encode("utf-8")).decode()) for k, v in sorted(STRTAB.items())]
+
+
+def name_human(prefix, n):
+    if n == 0:
+        return "''"
+    if n in STRTAB:
+        v = STRTAB[n]
+        return ascii(v) if len(v) <= 12 else "%s...(%d chars)" % (ascii(v[:6]), len(v))
+    return "'%s%d'" % (prefix, n)
+
+
+_STRKEYS = {"appName": "app", "app_name": "app", "region": "g", "Region": "g", "RPCAddress": "p", "RPCAddresses": "p"}
+
+
+def respecial(x, prefix=None):
+    """answer JSON with table literals replaced by the prefix+token spelling the canonicalisers of dbengine understand"""
+    if isinstance(x, dict):
+        return {k: respecial(v, _STRKEYS.get(k, prefix if k.isdigit() else None)) for k, v in x.items()}
+    if isinstance(x, list):
+        return [respecial(v, prefix) for v in x]
+    if isinstance(x, str) and prefix is not None and x in STRREV:
+        return "%s%d" % (prefix, STRREV[x])
+    return x
+
+
+# ---------------------------------------------------------------------------------------------- wrapped calls
+def X(op, fault=None, s2=False):
+    return ("X", fault, s2, op) if (fault or s2) else op
+
+
+def unwrap(op):
+    """-> (call, fault or None, through the second server object?)"""
+    if op[0] == "X":
+        return op[3], op[1], op[2]
+    return op, None, False
 
 
 # ---------------------------------------------------------------------------------------------- values
@@ -68,9 +133,15 @@ def malformed_regions(rs, cs):
 
 
 # ---------------------------------------------------------------------------------------------- op <-> text
+FAULT_HUMAN = {"c": "the client's context is already cancelled", "d": "the client's deadline is %d microseconds",
+               "t": "the allowance of a proposal / lookup inside the call (raftOpTimeoutMillisecond) is %d ms"}
+
+
 def op_line(op):
     k = op[0]
-    if k in ("SCNIL", "SRNIL", "SB", "GS", "GN", "GL", "GD", "T", "CTX", "RESTART", "KILL"):
+    if k == "X":
+        return ("@2 " if op[2] else "") + ("F %s %d " % op[1] if op[1] else "") + op_line(op[3])
+    if k in ("SCNIL", "SRNIL", "SB", "GS", "GN", "GL", "GD", "GB", "T", "CTX", "RESTART", "KILL"):
         return k
     if k == "SC":
         return "SC %d %d %d %d %s" % (op[1], op[2], op[3], len(op[4]), " ".join(map(str, op[4])))
@@ -94,12 +165,17 @@ def op_line(op):
 
 def op_human(op):
     k = op[0]
+    if k == "X":
+        f = op[1]
+        return op_human(op[3]) + (" [through a second server object on the same NodeHost]" if op[2] else "") + (
+            " [fault injected: %s]" % (FAULT_HUMAN[f[0]] % f[1] if "%" in FAULT_HUMAN[f[0]] else FAULT_HUMAN[f[0]]) if f else "")
     if k == "SC":
-        return "SubmitChange(type=%d shard=%d app=%s members=%s)" % (op[1], op[2], "'app%d'" % op[3] if op[3] else "''", list(op[4]))
+        mem = list(op[4]) if len(op[4]) <= 12 else "%s...(%d ids)" % (list(op[4][:6]), len(op[4]))
+        return "SubmitChange(type=%d shard=%d app=%s members=%s)" % (op[1], op[2], name_human("app", op[3]), mem)
     if k == "SCNIL":
         return "SubmitChange(nil)"
     if k == "SR":
-        return "SetRegions(region=%s count=%s)" % (["g%d" % x if x else "" for x in op[1]], list(op[2]))
+        return "SetRegions(region=[%s] count=%s)" % (", ".join(name_human("g", x) for x in op[1]), list(op[2]))
     if k == "SRNIL":
         return "SetRegions(nil)"
     if k == "SB":
@@ -110,12 +186,13 @@ def op_human(op):
         return "setDeploymentID(random source -> %d) with another server's setDeploymentID(random source -> %d) landing between its draw and its proposal" % (op[1], op[2])
     if k == "RP":
         r = op[1]
-        return "ReportAvailableNodeHost(addr=a%d, %d shard infos)" % (r["addr"], len(r["infos"]))
+        return "ReportAvailableNodeHost(addr=a%d, region=%s, rpc=%s, %d shard infos)" % (
+            r["addr"], name_human("g", r["region"]), name_human("p", r["rpc"]), len(r["infos"]))
     if k == "GT":
         return "GetShardStates(%s)" % list(op[1])
     if k == "Q":
         return "Drummer.updateRequests(%d requests for %s)" % (len(op[1]), sorted(set("a%d" % q["raft"] for q in op[1])))
-    return {"GS": "GetShards()", "GN": "GetNodeHostCollection()", "GL": "GetShardConfigChangeIndexList()", "GD": "GetDeploymentInfo()",
+    return {"GB": "server.getBootstrapped()", "GS": "GetShards()", "GN": "GetNodeHostCollection()", "GL": "GetShardConfigChangeIndexList()", "GD": "GetDeploymentInfo()",
             "T": "Drummer.tick()", "CTX": "server.getSchedulerContext()", "RESTART": "restart the replica (NodeHost.Close, same directory)",
             "KILL": "kill -9 the replica process, start it again on the same directory"}[k]
 
@@ -170,6 +247,7 @@ def canon(op, ans):
         return ("tok", [8])
     if ans.startswith("err "):
         return ("tok", [1])
+    op = unwrap(op)[0]
     k = op[0]
     f = ans.split(" ", 2)
     if f[0] != "ok":
@@ -185,10 +263,12 @@ def canon(op, ans):
             return ("tok", [2, int(g[0]), int(g[1])])
         if f[1] == "v":
             return ("v", int(f[2]))
+        if f[1] == "bool":
+            return ("tok", [10, int(f[2])])
         if f[1] == "json":
-            return ("tok", E.dump_context(f[2], REGTAB))
+            return ("tok", E.dump_context(json.dumps(respecial(json.loads(f[2]))), REGTAB))
         if f[1] == "pb":
-            c = json.loads(f[2])
+            c = respecial(json.loads(f[2]))
             if k == "RP":
                 return ("tok", [3] + E.dl(E.dump_req_pj, c.get("requests") or []))
             if k == "GS":
@@ -197,7 +277,7 @@ def canon(op, ans):
                 col = sorted(c.get("collection") or [], key=lambda x: E.sid("a", x.get("raftAddress")))
                 return ("tok", [5, E.i_(c.get("tick"))] + E.dl(dump_report_pj, col))
             if k == "GT":
-                t = E.dump_states_pj(f[2])
+                t = E.dump_states_pj(json.dumps(c))
                 return ("tok", [6] + (t[1:] if t[0] == 1 else [0]))
             if k == "GL":
                 return ("tok", [7] + E.dpairs(sorted((int(a), E.i_(b)) for a, b in (c.get("indexes") or {}).items())))
@@ -208,6 +288,7 @@ def canon(op, ans):
 
 def item_coq(op, obs):
     kind, tok = obs
+    op = unwrap(op)[0]
     k = op[0]
     if k in ("RESTART", "KILL"):
         return "SRestart %s" % cbool(tok)
@@ -217,6 +298,8 @@ def item_coq(op, obs):
         return "SCmd (%s) %s" % (E.cmd_coq(("Q", op[1])), "None" if kind == "died" else "(Some %d)" % tok)
     if k == "CTX":
         return "SCtx %s" % ("None" if kind == "died" else "(Some %s)" % E.cl(tok))
+    if k == "GB":
+        return "SBoot %s" % E.cl(tok)
     return "SCall (%s) %s" % (call_coq(op), E.cl(tok))
 
 
@@ -289,11 +372,80 @@ def probe(ids):
     return [("CTX",), ("GS",), ("GD",), ("GN",), ("GL",), ("GT", ids)]
 
 
-def gen_case(rng, mal_sc, mal_sr, restart):
-    """one call sequence; mal_sc / mal_sr: malformed kinds this sequence must contain"""
+def safe_report(w, a, rng):
+    rep = w.report(a)
+    for ci in rep["infos"]:
+        if not ci["members"] and not ci["pending"]:
+            ci["incomplete"] = True                # (a complete report without members trips a consistency assertion: C04's subject)
+    return rep
+
+
+ODD_SC_KINDS = ["blank", "name", "name", "long-list", "big-ids", "blank+list"]
+
+
+def odd_sc(rng, kind, shard):
+    """well-formed by the letter of the contract, unusual: names that look empty / look like another name, long lists, huge ids"""
+    app = rng.randint(1, 3)
+    members = rng.sample([21, 22, 23, 24, 25], rng.randint(1, 3))
+    if kind in ("blank", "blank+list"):
+        app = rng.choice(BLANKS)
+    if kind == "name":
+        app = rng.choice(ODD)
+    if kind in ("long-list", "blank+list"):
+        n = rng.choice([17, 64, 65, 255, 256, 300])
+        members = [1000 + 7 * j for j in range(n)]
+    if kind == "big-ids":
+        members = rng.sample([M64, M64 - 1, 1 << 63, (1 << 63) - 1, 1 << 32, (1 << 32) + 1, 1 << 31, 100000, 200000], rng.randint(1, 4))
+    return ("SC", 0, shard, app, members)
+
+
+def odd_sr(rng):
+    n = rng.choice([1, 2, 2, 3, 6])
+    names = rng.sample(ODD[:-3] + [1, 2], n) if n <= 3 else rng.sample([1, 2, 3, 4, 5, 6, 7, 8, 41, 43, 46], n)
+    # (the model's injective code of a specification has as many bits as the sum of all names and counts: keep it in the hundreds)
+    cs = [rng.choice([0, 1, 2, 3]) for _ in names]
+    if n <= 3 and rng.random() < 0.5:
+        cs[rng.randrange(n)] = rng.choice([64, 255, 256, 500])
+    return ("SR", names, cs)
+
+
+def pick_fault(rng, sure=False):
+    """sure: a kind that fails the call for certain (allowance below one RTT / cancelled context)"""
+    x = rng.random()
+    if sure or x < 0.5:
+        return ("t", 1) if rng.random() < 0.7 else ("c", 0)
+    if x < 0.8:
+        return ("d", rng.choice([1, 300, 1000, 1900, 1990, 2010, 2100, 2300, 2600, 3000, 4000, 6000, 12000]))
+    return ("t", rng.choice([2, 2, 3, 4, 5]))
+
+
+FPROBE = [("CTX",), ("GB",), ("GS",), ("GD",)]
+FAULT_CAP = [7]
+
+
+def gen_case(rng, mal_sc, mal_sr, restart, faults=0.0, odd=0.0):
+    """one call sequence; mal_sc / mal_sr: malformed kinds this sequence must contain; faults / odd: how much of the
+    fault-injection and unusual-argument dimensions it carries (0 = none)"""
     w = dbgen.World(rng, nhosts=rng.randint(2, 5), nshards=rng.randint(1, 3))
     ids = sorted(w.hist)
     ops = []
+
+    def srv(op):                               # now and then through the second server object
+        return X(op, None, True) if (faults or odd) and rng.random() < 0.12 else op
+
+    budget = [FAULT_CAP[0]]                     # failed calls double the set of states the model has to follow until an answer decides
+
+    def fault(sure=False):
+        if budget[0] <= 0:
+            return None
+        budget[0] -= 1
+        return pick_fault(rng, sure)
+
+    def emit_fault(op, sure=False):
+        ops.extend(FPROBE + [X(op, fault(sure), rng.random() < 0.15)] + [srv(x) for x in FPROBE])
+
+    def emit_odd(op):
+        ops.extend([("CTX",), ("GS",), ("GD",), srv(op), ("CTX",), ("GS",), ("GD",)])
     todo_sc = [("SC", 0, s, d["app"], list(d["members"])) for s, d in sorted(w.defs.items())]
     rng.shuffle(todo_sc)
     mal = [("sc", k) for k in mal_sc] + [("sr", k) for k in mal_sr]
@@ -326,14 +478,27 @@ def gen_case(rng, mal_sc, mal_sr, restart):
         acts.append(("SC", 0, d[2], rng.randint(1, 3), rng.sample([31, 32, 33], rng.randint(1, 3))))    # same id, other content
     if rng.random() < 0.3:
         acts.append(("SC", 0, rng.choice([7, 9]), rng.randint(1, 3), [rng.randint(40, 50)]))          # a shard nobody hosts
+    nodd = 0
+    if odd:
+        for _ in range(rng.choice([1, 2, 2, 3])):
+            acts.append(("ODD", odd_sc(rng, rng.choice(ODD_SC_KINDS), rng.choice([7, 9, 11, 12, 13] + ids))))
+        if rng.random() < odd:
+            acts.append(("ODD", odd_sr(rng)))
     rng.shuffle(acts)
     boot_at = rng.choice([None, len(acts), len(acts), rng.randrange(len(acts) + 1)])
     mal1 = list(slots[1])
     for i, a in enumerate(acts):
         if boot_at == i:
-            ops += [("SB",), ("CTX",)]
-        ops.append(a)
-        ops.append(rng.choice([("CTX",), ("GS",), ("GD",), ("CTX",)]))
+            ops += [srv(("SB",)), ("CTX",)]
+        if faults and (boot_at is None or boot_at > i) and rng.random() < 0.3 * faults:
+            emit_fault(("SB",), sure=rng.random() < 0.8)           # a SetBootstrapped that fails while the DB is not bootstrapped
+        if a[0] == "ODD":
+            emit_odd(a[1])
+            continue
+        if faults and a[0] != "SDR" and rng.random() < 0.25 * faults:
+            emit_fault(a)                                          # the same call, cut short, before the real one
+        ops.append(srv(a))
+        ops.append(rng.choice([("CTX",), ("GS",), ("GD",), ("CTX",), ("GB",)] if faults else [("CTX",), ("GS",), ("GD",), ("CTX",)]))
         if mal1 and rng.random() < 0.5:
             emit_mal(mal1.pop())
     if boot_at == len(acts):
@@ -368,17 +533,54 @@ def gen_case(rng, mal_sc, mal_sr, restart):
             ops.append(rng.choice([("SB",), good_regions(rng), ("SD", rng.randrange(100)),
                                    ("SC", 0, rng.choice(ids + [8]), 1, [rng.randint(60, 70)])]))
             ops.append(("CTX",))
+        elif faults and x < 0.56 + 0.08 * faults:
+            # a report that fails between two reports that are answered, with requests scheduled before / in between:
+            # the failed one hands nothing out (or, if it went through after all, exactly the pending batch - once)
+            a = rng.choice(w.hosts)
+
+            def rep_for(a):
+                r = safe_report(w, a, rng)
+                if odd and rng.random() < 0.3:
+                    r["region"] = rng.choice(ODD)
+                if odd and rng.random() < 0.2:
+                    r["rpc"] = rng.choice(ODD)
+                return r
+
+            def batch(a):
+                qs = [w.random_request() for _ in range(rng.choice([1, 2, 3]))]
+                for q in qs:
+                    q["raft"] = a
+                return ("Q", qs)
+            if rng.random() < 0.8:
+                ops.append(batch(a))
+            ops += [srv(("RP", rep_for(a))), ("GN",)]
+            if rng.random() < 0.5:
+                ops.append(batch(a))
+            ops += [X(("RP", rep_for(a)), fault(sure=rng.random() < 0.7), rng.random() < 0.15), ("CTX",), ("GN",)]
+            if rng.random() < 0.3:
+                ops += [X(("RP", rep_for(a)), fault(), False), ("GN",)]
+            if rng.random() < 0.3:
+                ops.append(batch(a))
+            ops += [srv(("RP", rep_for(a))), ("CTX",), ("GN",)]
         else:
             a = rng.choice(w.hosts)
             rep = w.report(a, stray=rng.random() < 0.1) if rng.random() < 0.8 else dbgen.full_report(w, a)
             for ci in rep["infos"]:
                 if not ci["members"] and not ci["pending"]:
                     ci["incomplete"] = True            # (a complete report without members trips a consistency assertion: C04's subject)
-            ops.append(("RP", rep))
+            if odd and rng.random() < 0.1:
+                rep["region"] = rng.choice(ODD)
+            if faults and rng.random() < 0.08 * faults:
+                ops.append(X(("RP", rep), fault(), False))
+                ops += [("CTX",), ("GN",)]
+            else:
+                ops.append(srv(("RP", rep)))
             if rng.random() < 0.3:
-                ops.append(("RP", w.report(a)))             # again: the reply was handed out, nothing is pending
+                ops.append(("RP", safe_report(w, a, rng)))             # again: the reply was handed out, nothing is pending
             if rng.random() < 0.5:
                 ops += [("CTX",), ("GN",)]
+        if faults and rng.random() < 0.06 * faults:
+            ops.append(X(rng.choice([("GS",), ("GN",), ("GD",), ("GL",), ("GT", ids), ("GB",)]), pick_fault(rng), rng.random() < 0.3) if budget[0] > 0 else ("GS",))
         if rng.random() < 0.3:
             ops += [("CTX",), rng.choice([("GN",), ("GL",), ("GT", ids), ("GT", rng.sample(ids, 1)), ("GT", ids + [77]), ("GT", []), ("GS",)])]
         if mal2 and rng.random() < 0.25:
@@ -392,11 +594,64 @@ def gen_case(rng, mal_sc, mal_sr, restart):
     if restart:
         ops.append((restart,))
         ops += probe(ids)
-        ops += [("T",), ("RP", w.report(rng.choice(w.hosts))), ("SC", 0, 6, 1, [91]), ("SB",)]
-        ops += probe(ids)
+        if faults and rng.random() < 0.5 * faults:
+            emit_fault(rng.choice([("SB",), ("SC", 0, 6, 2, [92, 93]), ("SD", 5)]))
+        ops += [("T",), ("RP", safe_report(w, rng.choice(w.hosts), rng)), srv(("SC", 0, 6, 1, [91])), ("SB",)]
+        ops += probe(ids) + ([("GB",)] if faults else [])
         if rng.random() < 0.3:
             ops.append((rng.choice(["RESTART", "KILL"]),))
             ops += probe(ids)
+    return ops
+
+
+def gen_fault_config_case(rng, thorough=False, restart=False):
+    """a short configuration history in which every kind of call also fails (for certain / maybe) before, between and after
+    calls that are answered, on either of two server objects; the DB is read back (getBootstrapped, GetShards, GetDeploymentInfo,
+    scheduler context) after every step; the names come from the whole string table"""
+    ops = list(FPROBE)
+    shards = rng.sample([1, 2, 3, 4, 100001, (1 << 32) + 1], rng.randint(2, 4))
+    acts = []
+    for sh in shards:
+        acts.append(("SC", 0, sh, rng.choice([1, 2, 3] + ODD), rng.sample([11, 12, 13, 14], rng.randint(1, 3))))
+    for b in rng.sample(BLANKS, 2 if not thorough else 4):
+        acts.append(("SC", 0, rng.choice([21, 22, 23, 24, 25, 26]), b, [rng.randint(30, 40)]))
+    acts.append(("SB",))
+    acts.append(("SD", rng.choice([0, 7, M64, rng.randrange(M64)])))
+    acts.append(good_regions(rng) if rng.random() < 0.6 else odd_sr(rng))
+    if rng.random() < 0.5:
+        acts.append(odd_sr(rng))
+    if rng.random() < 0.4:
+        acts.append(odd_sc(rng, rng.choice(["long-list", "big-ids", "blank+list"]), 31))
+    rng.shuffle(acts)
+    sb = [j for j, a in enumerate(acts) if a[0] == "SB"][0]
+    if rng.random() < 0.6:                         # bootstrap late: more room for what must NOT look bootstrapped before
+        acts.append(acts.pop(sb))
+    seen_sb = False
+    for a in acts:
+        # failed twins in front of the call: the same call and a failed SetBootstrapped while the DB is not bootstrapped
+        pre = []
+        if not seen_sb and rng.random() < 0.45:
+            pre.append(("SB",))
+        if rng.random() < 0.45:
+            pre.append(a)
+        if rng.random() < 0.15:
+            pre.append(rng.choice([("GS",), ("GD",), ("GB",)]))
+        for f in pre:
+            if sum(1 for o in ops if o[0] == "X" and o[1]) >= FAULT_CAP[0]:
+                break
+            ops.append(X(f, pick_fault(rng, sure=rng.random() < 0.75), rng.random() < 0.3))
+            ops += [X(x, None, rng.random() < 0.2) for x in FPROBE]
+        ops.append(X(a, None, rng.random() < 0.3))
+        ops += [X(x, None, rng.random() < 0.2) for x in FPROBE]
+        if a[0] == "SB":
+            seen_sb = True
+        if a[0] == "SC" and rng.random() < 0.3:
+            ops.append(X(("SC", 0, a[2], rng.choice([1, 2] + ODD), [77]), None, rng.random() < 0.5))     # same id again, other content
+            ops.append(("GS",))
+    if restart:
+        ops.append((rng.choice(["RESTART", "KILL"]),))
+        ops += FPROBE
+    ops += [("SC", 0, 55, 1, [91]), ("GS",), ("GB",)]
     return ops
 
 
@@ -438,7 +693,7 @@ def run_exec(ck, binp, cases, tag):
     fi, fo = os.path.join(s, "svc-in-%s.txt" % tag), os.path.join(s, "svc-out-%s.txt" % tag)
     work = os.path.join(s, "svc-work-%s" % tag)
     os.makedirs(work, exist_ok=True)
-    lines = []
+    lines = str_lines()
     for (name, ops, mode) in cases:
         lines.append("CASE %s %s" % (name, mode))
         lines += [op_line(op) for op in ops]
@@ -451,7 +706,9 @@ def run_exec(ck, binp, cases, tag):
     if rc != 0 or not os.path.exists(fo):
         return None, None, (rc, out[-4000:])
     res, cur, params = {}, None, None
-    for l in open(fo).read().splitlines():
+    for l in open(fo).read().split("\n"):
+        if not l:
+            continue
         if l.startswith("PARAMS"):
             params = tuple(int(x) for x in l.split()[1:4])
         elif l.startswith("CASE "):
@@ -470,25 +727,89 @@ class Fail(Exception):
     pass
 
 
+def failed_calls(ops, ans):
+    """indices of the state-changing calls that were cut short by an injected fault and answered with an error"""
+    out = []
+    for i, wop in enumerate(ops):
+        op, flt, _ = unwrap(wop)
+        a = ans.get(i)
+        if a is None:
+            break
+        if flt and op[0] in MUT and a[0].startswith("err ") and not is_malformed(op):
+            out.append(i)
+    return out
+
+
 def monitor_case(name, ops, ans, stats):
-    """python monitors on one executed sequence.  Returns list of (monitor, what, op index)."""
+    """python monitors on one executed sequence.  Returns list of (monitor, what, op index).
+    A call that failed under fault injection was applied or not: the resolutions are explored failed call by failed call (a
+    resolution survives while it explains every answer up to the next failed call); the sequence is fine when one of them
+    explains all answers; otherwise the failures of the resolution that gets furthest are returned."""
+    J = failed_calls(ops, ans)
+    if not J:
+        return monitor_one(name, ops, ans, stats, {})
+    cands, best = [{}], None
+    bounds = J[1:] + [len(ops)]
+    for k, j in enumerate(J):
+        nxt, best = [], None
+        for c in cands:
+            for b in (False, True):
+                ch = dict(c)
+                ch[j] = b
+                st = copy.deepcopy(stats)
+                fails = monitor_one(name, ops[:bounds[k]], ans, st, ch)
+                if not fails:
+                    nxt.append((ch, st))
+                else:
+                    first = min(f[2] for f in fails)
+                    if best is None or first > best[0]:
+                        best = (first, fails, st, ch)
+        if not nxt:
+            _, fails, st, ch = best
+            stats.clear()
+            stats.update(st)
+            note = "; ".join("call %d %s" % (x, "applied" if ch[x] else "left nothing behind") for x in J[:k + 1])
+            return [(mon, what + " [%d call(s) before this one failed under fault injection; no way of resolving them as applied in full / "
+                     "not at all explains the answers; shown for: %s]" % (k + 1, note), i) for (mon, what, i) in fails]
+        cands = [c for (c, _) in nxt[:64]]
+    stats.clear()
+    stats.update(nxt[0][1])
+    return []
+
+
+def dump_report_py(r, last_tick):
+    def dsi(ci):
+        return [ci["shard"], ci["replica"], E.i_(ci["leader"])] + E.dpairs(sorted(ci["members"])) + [
+            ci["cci"], E.i_(ci["incomplete"]), E.i_(ci["pending"])]
+    return ([r["addr"]] + E.dl(dsi, r["infos"]) + E.dn(r["shard_ids"]) + [last_tick, E.i_(r["plog_incl"])] +
+            E.dpairs(r["plog"]) + [r["region"], r["rpc"]])
+
+
+def monitor_one(name, ops, ans, stats, choice):
     fails = []
     defined, bootstrapped, regions, did = {}, False, None, None
     mailbox = {}
+    reports = {}        # addr -> tokens of the last acknowledged report, stamped with the tick it was applied at
     last = {}           # fresh answers: kind -> tokens (invalidated by every mutation)
+    prev = {}
     ctx_raw = None
     tick = 0
     n_exec = 0
-    for i, op in enumerate(ops):
+    for i, wop in enumerate(ops):
         a = ans.get(i)
         if a is None:
             break
         n_exec += 1
+        op, flt, s2 = unwrap(wop)
         k = op[0]
         line = a[0]
+        if flt:
+            stats["faulted"] = stats.get("faulted", 0) + 1
+        if s2:
+            stats["second_server"] = stats.get("second_server", 0) + 1
         if k in ("RESTART", "KILL"):
             if line != "restarted alive":
-                fails.append(("restart", "the replica does not come up again after %s: %s" % (op_human(op), line), i))
+                fails.append(("restart", "the replica does not come up again after %s: %s" % (op_human(wop), line), i))
                 break
             stats["restarts"] += 1
             saved = dict(last)
@@ -503,10 +824,32 @@ def monitor_case(name, ops, ans, stats):
             if k in CONFIG:
                 again = a[1] if len(a) > 1 else ""
                 fails.append(("alive", "the DB replica died while serving %s (%s)%s" % (
-                    op_human(op), line[5:], "; started again on the same directory it " + ("dies again: " + again[11:] if again.startswith("AGAIN died") else "comes up") if again else ""), i))
+                    op_human(wop), line[5:], "; started again on the same directory it " + ("dies again: " + again[11:] if again.startswith("AGAIN died") else "comes up") if again else ""), i))
             break
         if tok == [8]:
-            fails.append(("codes", "%s panics in the service goroutine: %s" % (op_human(op), line[7:100]), i))
+            fails.append(("codes", "%s panics in the service goroutine: %s" % (op_human(wop), line[7:100]), i))
+        # ---- a call cut short by an injected fault and answered with an error
+        if flt and tok == [1] and not is_malformed(op):
+            stats["faulted_failed"] = stats.get("faulted_failed", 0) + 1
+            stats.setdefault("failed_kinds", set()).add("%s:%s" % (k, flt[0] + ("1" if flt == ("t", 1) else "")))
+            if k not in MUT or not choice.get(i):
+                continue                       # it left nothing behind: every fresh answer stays fresh
+            last = {}                          # the client was told it failed, but the proposal went through
+            if k == "SC":
+                if not bootstrapped and op[2] not in defined:
+                    defined[op[2]] = (op[3], list(op[4]))
+            elif k == "SB":
+                bootstrapped = True
+            elif k == "SR":
+                if regions is None:
+                    regions = (tuple(op[1]), tuple(op[2]))
+            elif k == "SD":
+                if did is None:
+                    did = op[1]
+            elif k == "RP":
+                mailbox.pop(op[1]["addr"], None)
+                reports[op[1]["addr"]] = dump_report_py(op[1], tick)
+            continue
         # ---- fresh-answer bookkeeping for "untouched" / "restart" comparisons
         key = k if k != "GT" else "GT%s" % (op[1],)
         if k in MUT:
@@ -515,32 +858,44 @@ def monitor_case(name, ops, ans, stats):
         if k not in MUT:
             saved = last.get("_after_restart")
             if saved is not None and key in saved and saved[key] != tok:
-                fails.append(("restart", "%s answers differently after the restart + log replay" % op_human(op), i))
+                fails.append(("restart", "%s answers differently after the restart + log replay" % op_human(wop), i))
             last[key] = tok
         # ---- per call
         if is_malformed(op):
             stats["malformed"] += 1
             stats.setdefault("malformed_kinds", set()).add(mal_kind(op))
             if tok != [1]:
-                fails.append(("refused", "malformed %s is not refused with an error (answer: %s)" % (op_human(op), line[:80]), i))
+                fails.append(("refused", "malformed %s is not refused with an error (answer: %s)" % (op_human(wop), line[:80]), i))
             # compare the probes right after with the probes right before
             j = i + 1
             before = prev
-            while j < len(ops) and ops[j][0] in ("CTX", "GS", "GD") and j in ans:
+            while j < len(ops) and ops[j][0] in ("CTX", "GS", "GD", "GB") and j in ans:
                 kk, tt = canon(ops[j], ans[j][0])
                 if kk == "died":
                     break
                 if ops[j][0] in before and before[ops[j][0]] != tt:
-                    fails.append(("refused", "malformed %s changed the DB: %s answers differently right after it" % (op_human(op), op_human(ops[j])), i))
+                    fails.append(("refused", "malformed %s changed the DB: %s answers differently right after it" % (op_human(wop), op_human(ops[j])), i))
                     break
                 j += 1
             if tok == [1]:
                 last = dict(prev)      # nothing happened
             continue
-        if k == "SC":
+        if k == "SC" and tok == [1] and (op[3] in STRTAB or len(op[4]) > 16 or max(op[4]) >= 1 << 32) and not flt:
+            # an unusual but not malformed argument may be refused - then the DB must be untouched
+            stats["odd_refused"] = stats.get("odd_refused", 0) + 1
+            last = dict(prev)
+            fails += untouched_after(ops, ans, i, prev, op)
+        elif k == "SR" and tok == [1] and (set(op[1]) & set(STRTAB) or len(op[1]) > 4) and not flt:
+            stats["odd_refused"] = stats.get("odd_refused", 0) + 1
+            last = dict(prev)
+            fails += untouched_after(ops, ans, i, prev, op)
+        elif k == "SC":
+            if op[3] in STRTAB or len(op[4]) > 16 or max(op[4]) >= 1 << 32:
+                stats["odd_args"] = stats.get("odd_args", 0) + 1
+                stats.setdefault("odd_names", set()).add(op[3])
             exp = 2 if bootstrapped else (1 if op[2] in defined else 0)
             if tok != [0, exp]:
-                fails.append(("codes", "%s answered %s, the DB state dictates %s" % (op_human(op), line[:60], ["OK", "SHARD_EXIST", "BOOTSTRAPPED"][exp]), i))
+                fails.append(("codes", "%s answered %s, the DB state dictates %s" % (op_human(wop), line[:60], ["OK", "SHARD_EXIST", "BOOTSTRAPPED"][exp]), i))
             if tok == [0, 0]:
                 defined[op[2]] = (op[3], list(op[4]))
         elif k == "SB":
@@ -550,7 +905,7 @@ def monitor_case(name, ops, ans, stats):
                 bootstrapped = True
         elif k == "SR":
             if tok != [0, 0]:
-                fails.append(("codes", "well-formed %s answered %s instead of OK" % (op_human(op), line[:60]), i))
+                fails.append(("codes", "well-formed %s answered %s instead of OK" % (op_human(wop), line[:60]), i))
             elif regions is None:
                 regions = (tuple(op[1]), tuple(op[2]))
         elif k == "SDR":
@@ -559,14 +914,18 @@ def monitor_case(name, ops, ans, stats):
                 if did is None:
                     did = op[2] if tok[2] != 0 else op[1]
                 if tok[1] != did or (tok[2] != 0 and tok[2] != did):
-                    fails.append(("codes", "%s: this server returned %d, the other %d, the deployment id of the DB is %s" % (op_human(op), tok[1], tok[2], did), i))
+                    fails.append(("codes", "%s: this server returned %d, the other %d, the deployment id of the DB is %s" % (op_human(wop), tok[1], tok[2], did), i))
             else:
-                fails.append(("codes", "%s answered %s" % (op_human(op), line[:60]), i))
+                fails.append(("codes", "%s answered %s" % (op_human(wop), line[:60]), i))
         elif k == "SD":
             if did is None and tok[0] == 2:
                 did = op[1]
             if tok != [2, did]:
-                fails.append(("codes", "%s returned %s, the deployment id of the DB is %s" % (op_human(op), line[:60], did), i))
+                fails.append(("codes", "%s returned %s, the deployment id of the DB is %s" % (op_human(wop), line[:60], did), i))
+        elif k == "GB":
+            if tok != [10, 1 if bootstrapped else 0]:
+                fails.append(("codes", "server.getBootstrapped() reads %s from the DB; SetBootstrapped was %sacknowledged before" % (
+                    line[:40], "" if bootstrapped else "not "), i))
         elif k == "GD":
             if tok != ([1] if did is None else [2, did]):
                 fails.append(("queries", "GetDeploymentInfo answered %s, acknowledged deployment id: %s" % (line[:60], did), i))
@@ -598,10 +957,11 @@ def monitor_case(name, ops, ans, stats):
                     stats["reports_with_requests"] += 1
                 if tok != exp:
                     fails.append(("report", "the reply to %s carries %d requests; %d request(s) were scheduled for a%d and not yet handed out%s" % (
-                        op_human(op), tok[1], len(pend), r["addr"], "" if tok[1] != len(pend) else " (content / order differs)"), i))
+                        op_human(wop), tok[1], len(pend), r["addr"], "" if tok[1] != len(pend) else " (content / order differs)"), i))
+                reports[r["addr"]] = dump_report_py(r, tick)
         elif k == "CTX":
             if line.startswith("ok json "):
-                ctx_raw = json.loads(line[8:])
+                ctx_raw = respecial(json.loads(line[8:]))
                 last["_ctx"] = ctx_raw
                 exp_rg = None if regions is None else {"region": ["g%d" % x for x in regions[0]], "count": list(regions[1])}
                 got = ctx_raw.get("Regions")
@@ -619,8 +979,27 @@ def monitor_case(name, ops, ans, stats):
             # the report was applied first: it is in the collection, stamped with the current tick
             if tok[1] != tick and tick:
                 fails.append(("queries", "GetNodeHostCollection tick %d, the last acknowledged tick is %d" % (tok[1], tick), i))
+            exp = [5, tok[1], len(reports)]
+            for ad in sorted(reports):
+                exp += reports[ad]
+            if tok != exp:
+                fails.append(("report", "GetNodeHostCollection does not show exactly the last acknowledged report of every NodeHost "
+                              "(an answered report is applied before its reply is computed; a failed one is applied in full or not at all)", i))
     stats["calls"] += n_exec
     return fails
+
+
+def untouched_after(ops, ans, i, before, op):
+    """the probes right after call i answer like the probes right before it"""
+    j = i + 1
+    while j < len(ops) and ops[j][0] in ("CTX", "GS", "GD", "GB") and j in ans:
+        kk, tt = canon(ops[j], ans[j][0])
+        if kk == "died":
+            break
+        if ops[j][0] in before and before[ops[j][0]] != tt:
+            return [("refused", "%s was refused with an error but changed the DB: %s answers differently right after it" % (op_human(op), op_human(ops[j])), i)]
+        j += 1
+    return []
 
 
 def dump_req_py(q):
@@ -657,9 +1036,10 @@ def mal_kind(op):
 
 
 def query_vs_ctx(op, line, c):
+    op = unwrap(op)[0]
     k = op[0]
     try:
-        r = json.loads(line.split(" ", 2)[2])
+        r = respecial(json.loads(line.split(" ", 2)[2]))
     except Exception:
         return None
     view = (c.get("ShardImage") or {}).get("Shards") or {}
@@ -721,8 +1101,13 @@ def replay_of(name, ops, ans, upto, mode):
     for i, op in enumerate(ops[:upto + 1]):
         a = ans.get(i)
         seq.append("%d. %s  ->  %s" % (i, op_human(op), "; ".join(x[:160] for x in a) if a else "(not executed)"))
+    body = [op_line(op) for op in ops[:upto + 1]]
+    used = set()
+    for l in body:
+        if re.match(r"(@2 )?(F \w \d+ )?(SC|SR|RP) ", l):
+            used |= set(int(t) for t in l.split() if t.isdigit() and int(t) in STRTAB)
     return {"case": name, "calls": seq,
-            "verif_in": ["CASE %s %s" % (name, mode)] + [op_line(op) for op in ops[:upto + 1]] + ["END"],
+            "verif_in": [l for l in str_lines() if int(l.split()[1]) in used] + ["CASE %s %s" % (name, mode)] + body + ["END"],
             "how": "build harness/go/root/zz_verif_{db,service}_test.go in a copy of the tree (go test -c .), put verif_in into a file, "
                    "run the binary with VERIF_IN=<file> VERIF_OUT=<out> -test.run '^TestVerifService$'"}
 
@@ -738,7 +1123,16 @@ def run(ck):
                       "NodeHost TTL boundary), scheduling batches (launch batch once, repeated launch, repair/kill batches), reports consistent "
                       "with a linear membership history (stale, partial, strays, repeated), all five queries interleaved; in 45% of the "
                       "sequences RESTART (NodeHost.Close) or KILL (SIGKILL) + log replay on a real directory, then all probes again + more calls; "
-                      "3 sequences in which the replica must die (launch deadline missed, inconsistent report); the witnesses of the repaired "
+                      "3 sequences in which the replica must die (launch deadline missed, inconsistent report); "
+                      "FAILED CALLS: in two thirds of the sequences and in 60 short configuration histories calls are cut short by an injected fault "
+                      "(proposal allowance below one RTT / 2-5 ms, client context cancelled, client deadline 1 us..12 ms) before, between and after "
+                      "answered calls of the same kind - SetBootstrapped while the DB is not bootstrapped, every configuration call, reports between "
+                      "two answered reports of the same NodeHost with batches scheduled in between, queries - on either of two server objects of the "
+                      "same NodeHost, the DB read back after each (getBootstrapped, scheduler context, GetShards, GetDeploymentInfo, collection); "
+                      "a failed call is resolved as applied-in-full or nothing, consistently (set-valued model checker, all resolutions in python); "
+                      "UNUSUAL ARGUMENTS: application / region names / report region + RPC address from a table of 22 literal strings (Unicode white "
+                      "space only, NUL, zero-width, padded and case variants of ordinary names, 300 / 5000 chars), member lists of 17..300 ids, ids up to 2^64-1; "
+                      "the witnesses of the repaired "
                       "defect first. A case = one executed call with its answer; distinct by md5 of (call text, answer text); all non-trivial.")
     timing = ck.cov.setdefault("timing_s", {})
     t0 = time.time()
@@ -759,14 +1153,19 @@ def run(ck):
                 for ent in json.load(open(os.path.join(cdir, fn))):
                     cases.append((ent["name"], [tuple(tuple_op(o)) for o in ent["ops"]], ent.get("mode", "dir")))
     cases += gen_death_cases(rng)
-    nseq = 200 if quick else 1500
+    nseq = 180 if quick else 1500
     for i in range(nseq):
         # every sequence carries 2-3 malformed calls of each family, cycling through the kinds
         msc = [SC_KINDS[(i + j * 3) % len(SC_KINDS)] for j in range(rng.choice([1, 2, 2, 3]))]
         msr = [SR_KINDS[(i + j * 3) % len(SR_KINDS)] for j in range(rng.choice([1, 2, 2, 3]))]
         restart = rng.choice([None, None, None, None, None, "RESTART", "RESTART", "KILL", "KILL"]) if i % 9 else "RESTART"
-        ops = gen_case(rng, msc, msr, restart)
+        # a third of the sequences as before, a third with calls that fail in the middle, a third with unusual arguments (+ some faults)
+        faults, odd = [(0.0, 0.0), (1.0, 0.4), (0.4, 1.0)][i % 3]
+        ops = gen_case(rng, msc, msr, restart, faults=faults, odd=odd)
         cases.append(("g%d" % i, ops, "dir" if restart else "mem"))
+    for i in range(60 if quick else 1200):
+        ops = gen_fault_config_case(rng, thorough=not quick, restart=i % 6 == 0)
+        cases.append(("f%d" % i, ops, "mem" if i % 6 else "dir"))
     # ---- execute
     t0 = time.time()
     res, params, fail = run_exec(ck, binp, cases, "main")
@@ -802,6 +1201,8 @@ def run(ck):
             if i in ans:
                 ck.count_case("%s %s" % (op_line(op), canon(op, ans[i][0])[1] if op[0] not in ("RESTART", "KILL") else ans[i][0]))
     stats["malformed_kinds"] = sorted(stats.get("malformed_kinds", []))
+    stats["failed_kinds"] = sorted(stats.get("failed_kinds", []))
+    stats["odd_names"] = sorted(stats.get("odd_names", []))
     ck.cov["stats"] = stats
     ck.cov["sequences"] = len(cases)
     # smallest failing prefix first; among equals prefer sequences on a real directory (their replay shows the restart)
@@ -821,9 +1222,11 @@ def run(ck):
             break
     for (name, ops, mode) in cases[:1] + cases[len(cases) // 2:len(cases) // 2 + 1]:
         ck.sample({"case": name, "calls": [op_human(o) for o in ops[:12]], "answers": [res[name][0].get(i, ["-"])[0][:100] for i in range(min(12, len(ops)))]})
-    if not ck.violations and (stats["reports_with_requests"] < 20 or len(stats["malformed_kinds"]) < 12 or stats["restarts"] < 10):
-        ck.violation("generator lost its coverage (reports with pending requests %d, malformed kinds %d, restarts %d)" % (
-            stats["reports_with_requests"], len(stats["malformed_kinds"]), stats["restarts"]), {"kind": "generator", "stats": stats}, found_input=False)
+    if not ck.violations and (stats["reports_with_requests"] < 20 or len(stats["malformed_kinds"]) < 12 or stats["restarts"] < 10 or
+                              stats.get("faulted_failed", 0) < 100 or len(stats["failed_kinds"]) < 10 or len(stats["odd_names"]) < 15):
+        ck.violation("generator lost its coverage (reports with pending requests %d, malformed kinds %d, restarts %d, failed calls %d of %d kinds, unusual names %d)" % (
+            stats["reports_with_requests"], len(stats["malformed_kinds"]), stats["restarts"], stats.get("faulted_failed", 0),
+            len(stats["failed_kinds"]), len(stats["odd_names"])), {"kind": "generator", "stats": stats}, found_input=False)
     # ---- model
     if not proofs_ok:
         return
@@ -831,7 +1234,7 @@ def run(ck):
     per = []
     for (name, ops, mode) in cases:
         ans = res[name][0]
-        items, idx = [], []
+        items, idx, nd = [], [], False
         for i, op in enumerate(ops):
             a = ans.get(i)
             if a is None:
@@ -843,12 +1246,20 @@ def run(ck):
             obs = canon(op, a[0])
             if obs[0] == "bad":
                 break
-            if op[0] == "SDR" and obs[0] == "tok" and len(obs[1]) == 3:
+            inner, flt, _s2 = unwrap(op)
+            if flt and obs == ("tok", [1]):
+                # cut short and answered with an error: applied in full or not at all (ServiceFault.v); a failed read says nothing
+                if inner[0] != "GB":
+                    items.append("FFailed (%s)" % call_coq(inner))
+                    idx.append(i)
+                    nd = True
+                continue
+            if inner[0] == "SDR" and obs[0] == "tok" and len(obs[1]) == 3:
                 # the other server's call is applied first, then this server's proposal: two sequential calls of the model
                 if obs[1][2] != 0:
-                    items.append(item_coq(("SD", op[2]), ("tok", [2, obs[1][2]])))
+                    items.append(item_coq(("SD", inner[2]), ("tok", [2, obs[1][2]])))
                     idx.append(i)
-                items.append(item_coq(("SD", op[1]), ("tok", [2, obs[1][1]])))
+                items.append(item_coq(("SD", inner[1]), ("tok", [2, obs[1][1]])))
                 idx.append(i)
                 continue
             items.append(item_coq(op, obs))
@@ -858,9 +1269,11 @@ def run(ck):
                     items.append("SRestart %s" % cbool(a[1].startswith("AGAIN alive")))
                     idx.append(i)
                 break
-        per.append((idx, items))
+        if nd:
+            items = [x if x.startswith("FFailed") else "FItem (%s)" % x for x in items]
+        per.append((idx, items, nd))
     nsh = 16 if len(cases) >= 32 else max(1, len(cases) // 2)
-    hdr = ["From stdpp Require Import gmap.", "From Drummer.Model Require Import DB DBRun Service ServiceRun.", "Local Open Scope N_scope.",
+    hdr = ["From stdpp Require Import gmap.", "From Drummer.Model Require Import DB DBRun Service ServiceRun ServiceFault.", "Local Open Scope N_scope.",
            "Definition P := mkParams %d %d %d." % params]
     jobs, owner = [], []
     for si in range(nsh):
@@ -869,8 +1282,8 @@ def run(ck):
             continue
         body = list(hdr)
         for ti in mine:
-            body.append("Definition t%d : list sitem := [\n%s\n]." % (ti, ";\n".join(per[ti][1])))
-            body.append("Definition r%d := Eval vm_compute in false_ix (check_strace P t%d)." % (ti, ti))
+            body.append("Definition t%d : list %s := [\n%s\n]." % (ti, "fitem" if per[ti][2] else "sitem", ";\n".join(per[ti][1])))
+            body.append("Definition r%d := Eval vm_compute in false_ix (%s P t%d)." % (ti, "check_ftrace" if per[ti][2] else "check_strace", ti))
         body.append("Definition M := Eval vm_compute in [%s]." % "; ".join("r%d" % ti for ti in mine))
         body.append("Print M.")
         jobs.append(("c17s%d" % si, "\n".join(body) + "\n"))
@@ -893,6 +1306,7 @@ def run(ck):
                     mism.append((per[ti][0][int(re.sub(r"%\w+", "", x))], ti, int(re.sub(r"%\w+", "", x))))
     timing["model_eval"] = round(time.time() - t0, 1)
     ck.cov["traces_validated_against_impl"] = sum(len(p[1]) for p in per)
+    ck.cov["sequences_with_failed_calls_checked_set_valued"] = sum(1 for p in per if p[2])
     ck.cov["model_disagreements"] = len(mism)
     if mism:
         mism.sort()
@@ -900,10 +1314,15 @@ def run(ck):
         name, ops, mode = cases[ti]
         ans = res[name][0]
         # the model's own answers for the replay file
-        body = list(hdr) + ["Definition t : list sitem := [\n%s\n]." % ";\n".join(per[ti][1][:pos + 1]),
-                            "Definition ANS := Eval vm_compute in last (model_sanswers P t).", "Print ANS."]
-        rc, out = ck.coq_eval("c17ans", "\n".join(body) + "\n")
-        mans = re.sub(r"\s+", " ", out)[:1500]
+        if per[ti][2]:
+            # a sequence with failed calls: the model has a SET of states here; show the first ones with the answers they give
+            mans = "no resolution (applied / not applied) of the failed calls %s of this sequence explains the answers up to this call" % (
+                [j for j in failed_calls(ops, ans) if j <= i],)
+        else:
+            body = list(hdr) + ["Definition t : list sitem := [\n%s\n]." % ";\n".join(per[ti][1][:pos + 1]),
+                                "Definition ANS := Eval vm_compute in last (model_sanswers P t).", "Print ANS."]
+            rc, out = ck.coq_eval("c17ans", "\n".join(body) + "\n")
+            mans = re.sub(r"\s+", " ", out)[:1500]
         died = any(x.startswith("DIED") for x in ans.get(i, []))
         rp = replay_of(name, ops, ans, i, mode)
         rp.update({"kind": "correspondence", "engine": "service", "n_disagreements": len(mism), "failing_call": "%d. %s" % (i, op_human(ops[i])),
